@@ -513,6 +513,56 @@ theorem view_read_refines (h : Heap) (u : View) (p : Path) (t : J) (hd : definit
   simp only [Heap.tree, ht, Option.bind_some]
   exact (getAll_append_definite u.path hd p t).symm
 
+/-- get along a definite prefix goes through the node the prefix locates -/
+theorem get_append_definite (pre q : Path) (j : J) (hd : definite pre = true) :
+    get (pre ++ q) j = (get pre j).bind (get q) := by
+  rw [get_eq_head_getAll, getAll_append_definite pre hd q j]
+  cases get pre j with
+  | none => simp
+  | some c => simp [get_eq_head_getAll]
+
+/-- A child bag (`(bag-get b p t)`, an element of `:get-all`, the argument of a `bag-walk` function)
+    shows the node the path selects in the parent — as a view of the parent's tree when the node is
+    a container, so that `alias_write_refines` applies to every later write through either bag. -/
+theorem child_shows_node (h h' : Heap) (b : Nat) (p : Path) (v : View) (t : J)
+    (hv : h.views[b]? = some v) (hd : definite v.path = true) (ht : h.tree v = some t)
+    (hs : h.child b p = .ok h') :
+    h'.bagTree h.views.length = get p t := by
+  unfold Heap.child at hs
+  simp only [hv, ht] at hs
+  split at hs
+  · cases hs
+  · split at hs
+    · cases hs
+    · cases hs
+    · rename_i c hc hget
+      split at hs
+      · cases hs
+        cases hr : h.trees[v.root]? with
+        | none => simp [Heap.tree, hr] at ht
+        | some r =>
+          have hg : get v.path r = some t := by simpa [Heap.tree, hr] using ht
+          simp [Heap.bagTree, Heap.tree, hr, get_append_definite v.path p r hd, hg, hget]
+      · cases hs
+        simp [Heap.bagTree, Heap.tree, Heap.newBag, hget, get]
+
+/-- A bag that is given a tree of its own (a parse / read / set without a path) shows that tree; the
+    bags that shared its old tree keep what they showed. -/
+theorem reset_detaches (h h' : Heap) (b : Nat) (j : J) (hs : h.resetBag b j = .ok h') :
+    h'.bagTree b = some j ∧
+    ∀ b' u, b' ≠ b → h.views[b']? = some u → u.root < h.trees.length → h'.bagTree b' = h.bagTree b' := by
+  unfold Heap.resetBag at hs
+  cases hv : h.views[b]? with
+  | none => simp [hv] at hs
+  | some v =>
+    simp only [hv] at hs
+    cases hs
+    have hlt : b < h.views.length := by
+      rcases List.getElem?_eq_some_iff.mp hv with ⟨hl, _⟩; exact hl
+    refine ⟨by simp [Heap.bagTree, Heap.tree, hlt, get], ?_⟩
+    intro b' u hne hu hroot
+    simp [Heap.bagTree, Heap.tree, List.getElem?_set_ne (Ne.symm hne), hu, List.getElem?_append_left hroot]
+
 /-- Refinement: a `bag-set` through bag `b` at `p` is, for EVERY bag `u` on the same tree whose
     place encloses the written location (`u.path ++ q = v.path ++ p`: the writer itself, its
     parents, a bag it was stored in), exactly the set of `q` in the tree that bag shows. -/
